@@ -1694,3 +1694,39 @@ def _c12(fb, rep):
 
 
 RULES['C12'] = _c12
+
+
+def c12b(fb, rep):
+    """R12.10: LPRowSetBase::type() reports a row WITHOUT sides as GREATER_EQUAL (the right-hand side is tested first).  A consumer that switches on the
+    type and uses lhs(i) as a number in the GREATER_EQUAL arm tests lhs(i) against -infinity there (an assert is not a test).  (F144)"""
+    from engine import case_arm_nodes
+    rep.rule('R12.10', 'a GREATER_EQUAL arm that uses lhs(i) as a number handles the free row (lhs(i) <= -infinity)', floor=1)
+    k = 0
+    for f in sorted(fb.funcs.values(), key=lambda g: (g.file, g.line, g.name)):
+        if not f.nodes or not f.name.startswith('soplex::SPxLPBase<') or re.search(r'::LPRow(Set)?Base<', f.name):
+            continue
+        for cs in f.nodes:
+            if cs.k != 'CaseStmt' or not cs.kids or not render(strip(cs.kids[0])).endswith('GREATER_EQUAL'):
+                continue
+            arm = case_arm_nodes(f, cs)
+            uses = [n for n in arm if n.is_call() and any(re.fullmatch(r'\(?(this->)?lhs\(\w+\)\)?', render(strip(a))) for a in n.args()) and not f.in_assert(n)]
+            if not uses:
+                continue
+            k += 1
+            tests = [n for n in arm if n.k in ('BinaryOperator', 'CXXOperatorCallExpr') and re.search(r'lhs\(\w+\) (<=|>|<|>=) .*infinity', render(n)) and not f.in_assert(n)]
+            rep.check(bool(tests), 'R12.10', '%s|case GREATER_EQUAL#%d' % (f.name.replace('soplex::', '')[:50], k), '%s:%d' % (f.file, cs.l), 'free row handled',
+                      'the arm passes lhs(i) on as a number (`%s`) without testing it against -infinity: type() also reports a free row as GREATER_EQUAL, the dual LP gets the '
+                      'objective coefficient -1e100 (assertion lhs(i) > -infinity in builds that keep assertions)' % render(uses[0])[:60])
+    if k < 1:
+        raise AnalysisBroken('R12.10: no GREATER_EQUAL arm that uses lhs(i) found')
+
+
+_c12c = RULES['C12']
+
+
+def _c12x(fb, rep):
+    _c12c(fb, rep)
+    c12b(fb, rep)
+
+
+RULES['C12'] = _c12x
